@@ -351,4 +351,247 @@ Section CrashProofs.
     - cbn [Crash.run_hist]. destruct (hstep_ok s h W) as [s1 [E [W1 X1]]]. rewrite E.
       destruct (IH s1 W1) as [s2 [R [W2 X2]]]. exists s2. split; [exact R|split; [exact W2|eapply extends_trans; eassumption]].
   Qed.
+
+  (** ** An accepted command in detail *)
+  Definition is_task (m : mutation) : bool :=
+    match m with MTaskDel _ | MTaskPut _ | MTaskFinish _ => true | _ => false end.
+
+  Lemma is_task_side m : is_task m = true -> is_side m = true.
+  Proof. destruct m; simpl; auto; discriminate. Qed.
+
+  Lemma forallb_impl {A} (f g : A -> bool) l : (forall x, f x = true -> g x = true) -> forallb f l = true -> forallb g l = true.
+  Proof. intros H. induction l as [|x l IH]; simpl; auto. intros E. apply andb_true_iff in E as [E1 E2]. rewrite (H _ E1). auto. Qed.
+
+  Lemma task_objs s m : is_task m = true -> s_objs (apply_side s m) = s_objs s /\ s_log (apply_side s m) = s_log s.
+  Proof. unfold apply_side. destruct m; simpl; try discriminate; auto. Qed.
+
+  Lemma run_tasks_objs ms : forall s, forallb is_task ms = true -> s_objs (run_side ms s) = s_objs s /\ s_log (run_side ms s) = s_log s.
+  Proof.
+    induction ms as [|m ms IH]; intros s H; simpl; [auto|].
+    simpl in H. apply andb_true_iff in H as [H1 H2]. unfold run_side in *. simpl.
+    destruct (IH (apply_side s m) H2) as [A B]. destruct (task_objs s m H1) as [C D]. rewrite A, B, C, D. auto.
+  Qed.
+
+  Lemma sched_all_tasks ts : forall p, forallb is_task (fst (sched_all p ts)) = true.
+  Proof.
+    induction ts as [|t ts IH]; intros p; simpl; [reflexivity|].
+    destruct (sched_all (t_put p t) ts) as [m2 p2] eqn:E. simpl.
+    rewrite forallb_app. specialize (IH (t_put p t)). rewrite E in IH. simpl in IH. rewrite IH.
+    destruct (t_mem p t); reflexivity.
+  Qed.
+
+  Lemma sched_fin_all_tasks ts : forall p r, forallb is_task (sched_fin_all p r ts) = true.
+  Proof.
+    induction ts as [|t ts IH]; intros p r; simpl; [reflexivity|].
+    rewrite !forallb_app, IH. destruct (t_mem r t), (t_mem p t); reflexivity.
+  Qed.
+
+  Lemma t_del_idem l t : t_del (t_del l t) t = t_del l t.
+  Proof.
+    unfold t_del. induction l as [|y l IH]; simpl; [reflexivity|].
+    destruct (task_eqb y t) eqn:E; simpl; [exact IH|rewrite E; simpl; rewrite IH; reflexivity].
+  Qed.
+
+  Lemma t_del_notin l t : t_mem l t = false -> t_del l t = l.
+  Proof.
+    unfold t_mem, t_del. induction l as [|y l IH]; simpl; [reflexivity|]. intros H. apply orb_false_iff in H as [H1 H2].
+    rewrite task_eqb_sym in H1. rewrite H1. simpl. rewrite IH by assumption. reflexivity.
+  Qed.
+
+  Lemma run_side_app a b s : run_side (a ++ b) s = run_side b (run_side a s).
+  Proof. unfold run_side. apply fold_left_app. Qed.
+
+  (** The queue after the writes of [schedule] for a list of tasks. *)
+  Lemma run_sched_all ts : forall p s, s_pend s = p ->
+    s_pend (run_side (fst (sched_all p ts)) s) = snd (sched_all p ts) /\ s_run (run_side (fst (sched_all p ts)) s) = s_run s.
+  Proof.
+    induction ts as [|t ts IH]; intros p s Hp; simpl; [auto|].
+    destruct (sched_all (t_put p t) ts) as [m2 p2] eqn:E. simpl. rewrite run_side_app.
+    specialize (IH (t_put p t)). rewrite E in IH. simpl in IH.
+    set (s1 := run_side ((if t_mem p t then [MTaskDel t] else []) ++ [MTaskPut t]) s).
+    assert (H1 : s_pend s1 = t_put p t /\ s_run s1 = s_run s).
+    { unfold s1, run_side, apply_side. destruct (t_mem p t); simpl; rewrite Hp; [|auto].
+      unfold t_put. rewrite t_del_idem. auto. }
+    destruct H1 as [H1 H2]. destruct (IH s1 H1) as [A B]. rewrite A, B, H2. auto.
+  Qed.
+
+  Lemma sched_all_mem ts : forall p x, t_mem (snd (sched_all p ts)) x = t_mem p x || t_mem ts x.
+  Proof.
+    induction ts as [|t ts IH]; intros p x; [simpl; rewrite orb_false_r; reflexivity|].
+    cbn [Crash.sched_all Crash.sched1]. destruct (sched_all (t_put p t) ts) as [m2 p2] eqn:E. cbn [snd].
+    specialize (IH (t_put p t) x). rewrite E in IH. cbn [snd] in IH. rewrite IH, t_mem_put.
+    change (t_mem (t :: ts) x) with (task_eqb x t || t_mem ts x).
+    destruct (task_eqb x t), (t_mem p x); reflexivity.
+  Qed.
+
+  Lemma run_sched_fin_all ts : forall p r s, s_pend s = p -> s_run s = r ->
+    (forall x, t_mem (s_pend (run_side (sched_fin_all p r ts) s)) x = t_mem p x || t_mem ts x) /\
+    (forall x, t_mem (s_run (run_side (sched_fin_all p r ts) s)) x = t_mem r x && negb (t_mem ts x)).
+  Proof.
+    induction ts as [|t ts IH]; intros p r s Hp Hr; simpl.
+    - rewrite Hp, Hr. split; intros x; [rewrite orb_false_r|rewrite andb_true_r]; reflexivity.
+    - rewrite run_side_app.
+      set (s1 := run_side ((if t_mem r t then [MTaskFinish t] else []) ++ (if t_mem p t then [MTaskDel t] else []) ++ [MTaskPut t]) s).
+      assert (H1 : s_pend s1 = t_put p t /\ s_run s1 = t_del r t).
+      { unfold s1, run_side, apply_side. destruct (t_mem r t) eqn:Er, (t_mem p t) eqn:Ep; simpl; rewrite ?Hp, ?Hr; unfold t_put; rewrite ?t_del_idem; split; try reflexivity.
+        - symmetry. apply t_del_notin. exact Er.
+        - symmetry. apply t_del_notin. exact Er. }
+      destruct H1 as [H1 H2]. destruct (IH (t_put p t) (t_del r t) s1 H1 H2) as [A B]. split; intros x.
+      + rewrite A, t_mem_put. destruct (task_eqb x t), (t_mem p x); reflexivity.
+      + rewrite B, t_mem_del. destruct (task_eqb x t), (t_mem r x), (t_mem ts x); reflexivity.
+  Qed.
+
+  (** Names outside the scheduled ones are not touched by any prefix of the side effects. *)
+  Definition names_in (ts : list task) (m : mutation) : bool :=
+    match m with MTaskDel u | MTaskPut u => t_mem ts u | MObjs _ => true | _ => false end.
+
+  Lemma sched_all_names ts' ts : (forall u, t_mem ts u = true -> t_mem ts' u = true) ->
+    forall p, forallb (names_in ts') (fst (sched_all p ts)) = true.
+  Proof.
+    induction ts as [|t ts IH]; intros H p; simpl; [reflexivity|].
+    destruct (sched_all (t_put p t) ts) as [m2 p2] eqn:E. simpl. rewrite forallb_app.
+    assert (Ht : t_mem ts' t = true). { apply H. simpl. rewrite task_eqb_refl. reflexivity. }
+    assert (H' : forall u, t_mem ts u = true -> t_mem ts' u = true). { intros u Hu. apply H. simpl. rewrite Hu. apply orb_true_r. }
+    specialize (IH H' (t_put p t)). rewrite E in IH. simpl in IH. rewrite IH.
+    destruct (t_mem p t); simpl; rewrite Ht; reflexivity.
+  Qed.
+
+  Lemma names_untouched ts ms : forall s, forallb (names_in ts) ms = true ->
+    s_run (run_side ms s) = s_run s /\ s_log (run_side ms s) = s_log s /\
+    forall x, t_mem ts x = false -> t_mem (s_pend (run_side ms s)) x = t_mem (s_pend s) x.
+  Proof.
+    induction ms as [|m ms IH]; intros s H; simpl; [auto|].
+    simpl in H. apply andb_true_iff in H as [H1 H2]. unfold run_side in *. simpl.
+    destruct (IH (apply_side s m) H2) as [A [B C]]. rewrite A, B.
+    unfold apply_side. destruct m; simpl in *; try discriminate; split; auto; split; auto; intros x Hx; rewrite C by assumption; simpl.
+    - rewrite t_mem_del. destruct (task_eqb x t) eqn:E; [apply task_eqb_eq in E; subst x; rewrite H1 in Hx; discriminate|apply andb_true_r].
+    - rewrite t_mem_put. destruct (task_eqb x t) eqn:E; [apply task_eqb_eq in E; subst x; rewrite H1 in Hx; discriminate|reflexivity].
+  Qed.
+
+  Lemma side_objs s o' evs n : s_objs (run_side (firstn n (side_effects s o' evs)) s) = match n with O => s_objs s | _ => o' end.
+  Proof.
+    destruct n as [|n]; [reflexivity|]. unfold Crash.side_effects. simpl firstn. unfold run_side. simpl fold_left.
+    fold (run_side (firstn n (fst (sched_all (s_pend s) (pre_tasks evs)))) (apply_side s (MObjs o'))).
+    destruct (run_tasks_objs (firstn n (fst (sched_all (s_pend s) (pre_tasks evs)))) (apply_side s (MObjs o'))) as [A _].
+    - apply firstn_forallb. apply sched_all_tasks.
+    - rewrite A. reflexivity.
+  Qed.
+
+  Lemma cmd_index_len s o' evs : cmd_index s evs = length (side_effects s o' evs).
+  Proof. reflexivity. Qed.
+
+  (** A cut before the command store, and a failing write up to and including the command store, leave
+      exactly the first n side effects - and nothing else. *)
+  Lemma cut_before_store s evs o' n : listen (s_objs s) evs = Some o' -> (n <= cmd_index s evs)%nat ->
+    run_cut n (steps_of s (OCommand evs)) s = Some (run_side (firstn n (side_effects s o' evs)) s).
+  Proof.
+    intros L Hn. cbn [Crash.steps_of]. rewrite L. rewrite run_cut_side_app by apply side_effects_side.
+    rewrite (cmd_index_len s o' evs) in Hn. destruct (n <? length (side_effects s o' evs))%nat eqn:E; [reflexivity|].
+    apply Nat.ltb_ge in E. assert (n = length (side_effects s o' evs)) by lia. subst n.
+    rewrite Nat.sub_diag, firstn_all. reflexivity.
+  Qed.
+
+  Lemma fail_before_store s evs o' n : listen (s_objs s) evs = Some o' -> (n <= cmd_index s evs)%nat ->
+    fail_at n (steps_of s (OCommand evs)) s = Some (run_side (firstn n (side_effects s o' evs)) s).
+  Proof.
+    intros L Hn. cbn [Crash.steps_of]. rewrite L. rewrite fail_at_side_app by apply side_effects_side.
+    rewrite (cmd_index_len s o' evs) in Hn. destruct (n <? length (side_effects s o' evs))%nat eqn:E; [reflexivity|].
+    apply Nat.ltb_ge in E. assert (n = length (side_effects s o' evs)) by lia. subst n.
+    rewrite Nat.sub_diag, firstn_all. reflexivity.
+  Qed.
+
+  (** C08: one failing write before or at the command store: the command is in no log and in no cache (the
+      whole stored aggregate - commands, snapshot, cache - is as before, so every reader sees the old state);
+      what may remain is exactly the first n of: the listener's write of the published-object store, then the
+      deletes/stores of the tasks the events schedule. Tasks of other names and running tasks are untouched. *)
+  Theorem failed_write_invisible : forall s evs o' n, wf s -> listen (s_objs s) evs = Some o' -> (n <= cmd_index s evs)%nat ->
+    exists s', fail_at n (steps_of s (OCommand evs)) s = Some s' /\
+      s' = run_side (firstn n (side_effects s o' evs)) s /\
+      s_log s' = s_log s /\ load (s_log s') = load (s_log s) /\
+      s_objs s' = match n with O => s_objs s | _ => o' end /\
+      s_run s' = s_run s /\
+      (forall t, t_mem (pre_tasks evs) t = false -> t_mem (s_pend s') t = t_mem (s_pend s) t).
+  Proof.
+    intros s evs o' n W L Hn. exists (run_side (firstn n (side_effects s o' evs)) s).
+    split; [apply fail_before_store; assumption|]. split; [reflexivity|].
+    assert (Hnames : forallb (names_in (pre_tasks evs)) (firstn n (side_effects s o' evs)) = true).
+    { apply firstn_forallb. unfold Crash.side_effects. simpl. apply sched_all_names. auto. }
+    destruct (names_untouched (pre_tasks evs) _ s Hnames) as [A [B C]].
+    split; [exact B|]. split; [rewrite B; reflexivity|]. split; [apply side_objs|]. split; [exact A|exact C].
+  Qed.
+
+  (** The same state is what a crash right before mutation n leaves on disk. *)
+  Theorem cut_equals_failed_write : forall s evs o' n, listen (s_objs s) evs = Some o' -> (n <= cmd_index s evs)%nat ->
+    run_cut n (steps_of s (OCommand evs)) s = fail_at n (steps_of s (OCommand evs)) s.
+  Proof. intros. rewrite (cut_before_store s evs o' n), (fail_before_store s evs o' n); auto. Qed.
+
+  (** The completed command. *)
+  Lemma run_all_side_cache ms a : forall s, forallb is_side ms = true ->
+    run_all (map (Mut S Ev Ob false) ms ++ [CacheSet S Ev Ob a]) s = Some (set_cache S Ev Ob (run_side ms s) a).
+  Proof.
+    intros s H. unfold Crash.run_all. rewrite run_cut_side_app by assumption.
+    rewrite app_length, map_length. simpl length.
+    replace (length ms + 1 <? length ms)%nat with false by (symmetry; apply Nat.ltb_ge; lia).
+    replace (length ms + 1 - length ms)%nat with 1%nat by lia. reflexivity.
+  Qed.
+
+  Lemma complete_command s evs o' : wf s -> listen (s_objs s) evs = Some o' ->
+    exists s1, complete (OCommand evs) s = Some s1 /\
+      cmds (s_log s1) = cmds (s_log s) ++ [SEvents evs] /\ snap S Ev (s_log s1) = snap S Ev (s_log s) /\
+      cache S Ev (s_log s1) = Some (replay (cmds (s_log s) ++ [SEvents evs])) /\
+      s_objs s1 = o' /\
+      (forall x, t_mem (s_pend s1) x = t_mem (s_pend s) x || t_mem (pre_tasks evs) x || t_mem (post_tasks evs) x) /\
+      (forall x, t_mem (s_run s1) x = t_mem (s_run s) x && negb (t_mem (post_tasks evs) x)).
+  Proof.
+    intros W L. unfold Crash.complete, Crash.run_all. cbn [Crash.steps_of]. rewrite L.
+    set (side := side_effects s o' evs).
+    set (post := sched_fin_all (snd (sched_all (s_pend s) (pre_tasks evs))) (s_run s) (post_tasks evs)).
+    set (a' := apply_stored S Ev apply (load (s_log s)) (SEvents evs)).
+    rewrite run_cut_side_app by apply side_effects_side.
+    rewrite !app_length, !map_length. fold side. simpl length.
+    replace (length side + (1 + (length post + 1)) <? length side)%nat with false by (symmetry; apply Nat.ltb_ge; lia).
+    replace (length side + (1 + (length post + 1)) - length side)%nat with (Datatypes.S (length post + 1)) by lia.
+    set (s0 := run_side side s).
+    assert (S0 : s_objs s0 = o' /\ s_log s0 = s_log s /\ s_pend s0 = snd (sched_all (s_pend s) (pre_tasks evs)) /\ s_run s0 = s_run s).
+    { unfold s0, side, Crash.side_effects, run_side. simpl fold_left.
+      fold (run_side (fst (sched_all (s_pend s) (pre_tasks evs))) (apply_side s (MObjs o'))).
+      destruct (run_tasks_objs (fst (sched_all (s_pend s) (pre_tasks evs))) (apply_side s (MObjs o')) (sched_all_tasks _ _)) as [A B].
+      destruct (run_sched_all (pre_tasks evs) (s_pend s) (apply_side s (MObjs o')) eq_refl) as [C D].
+      rewrite A, B, C, D. auto. }
+    destruct S0 as [O0 [L0 [P0 R0]]].
+    cbn [Crash.run_cut app]. unfold Crash.apply_mut. rewrite L0.
+    rewrite (load_ver (s_log s) W), N.eqb_refl.
+    set (s1 := with_log S Ev Ob s0 (mkStore S Ev (cmds (s_log s) ++ [SEvents evs]) (snap S Ev (s_log s)) (cache S Ev (s_log s)))).
+    fold (Crash.run_all S Ev Ob (map (Mut S Ev Ob false) post ++ [CacheSet S Ev Ob a']) s1) .
+    change (Crash.run_cut S Ev Ob (length post + 1) (map (Mut S Ev Ob false) post ++ [CacheSet S Ev Ob a']) s1)
+      with (Crash.run_cut S Ev Ob (length post + 1) (map (Mut S Ev Ob false) post ++ [CacheSet S Ev Ob a']) s1).
+    assert (RA : run_cut (length post + 1) (map (Mut S Ev Ob false) post ++ [CacheSet S Ev Ob a']) s1 = Some (set_cache S Ev Ob (run_side post s1) a')).
+    { rewrite <- (run_all_side_cache post a' s1) by apply sched_fin_all_side. unfold Crash.run_all. rewrite app_length, map_length. reflexivity. }
+    rewrite RA. eexists. split; [reflexivity|].
+    destruct (run_tasks_objs post s1 (sched_fin_all_tasks _ _ _)) as [A B].
+    destruct (run_sched_fin_all (post_tasks evs) (snd (sched_all (s_pend s) (pre_tasks evs))) (s_run s) s1 P0 R0) as [C D].
+    fold post in C, D. simpl. rewrite B. simpl. split; [reflexivity|]. split; [reflexivity|]. split.
+    - unfold a'. rewrite (load_is_replay S Ev init apply (s_log s) W). rewrite <- replay_snoc. reflexivity.
+    - split; [rewrite A; exact O0|]. split; intros x.
+      + rewrite C, sched_all_mem. reflexivity.
+      + apply D.
+  Qed.
+
+  (** C08: an acknowledged command is never lost: whatever operations, crashes at any mutation, failing
+      writes and restarts follow, it stays at its place in the log, and recovery replays that log. *)
+  Theorem ack_never_lost : forall s evs s1 hs, wf s -> listen (s_objs s) evs <> None ->
+    complete (OCommand evs) s = Some s1 ->
+    exists sN, run_hist s1 hs = Some sN /\
+      nth_error (cmds (s_log sN)) (length (cmds (s_log s))) = Some (SEvents evs) /\
+      recover S Ev init apply Ob sN = replay (cmds (s_log sN)).
+  Proof.
+    intros s evs s1 hs W L C. destruct (listen (s_objs s) evs) as [o'|] eqn:E; [|congruence].
+    destruct (complete_command s evs o' W E) as [s1' [C' [H1 _]]]. rewrite C in C'. inv C'.
+    assert (W1 : wf s1').
+    { destruct (good_run_all (steps_of s (OCommand evs)) s W (goodl_steps_of s _ W)) as [s2 [R [W2 _]]].
+      unfold Crash.complete in C. rewrite C in R. inv R. exact W2. }
+    destruct (run_hist_ok hs s1' W1) as [sN [R [WN [k Hk]]]]. exists sN. split; [exact R|]. split.
+    - rewrite Hk, H1, <- app_assoc. rewrite nth_error_app2 by lia. rewrite Nat.sub_diag. reflexivity.
+    - unfold recover. rewrite (load_is_replay S Ev init apply _ (crash_wf sN WN)). reflexivity.
+  Qed.
 End CrashProofs.
